@@ -34,8 +34,8 @@ ACCEPT = {
     "first": ["bool", "int", "float", "str", "date", "datetime", "timedelta", "datetime_ns"], "last": ["bool", "int", "float", "str", "date", "datetime", "timedelta", "datetime_ns"],
     "nth": ["bool", "int", "float", "str", "date", "datetime", "timedelta", "datetime_ns"], "mode": ["bool", "int", "float", "str", "date", "datetime", "timedelta", "datetime_ns"],
     "min": ["bool", "int", "float", "date", "datetime", "str", "timedelta", "datetime_ns"], "max": ["bool", "int", "float", "date", "datetime", "str", "timedelta", "datetime_ns"],
-    "mean": ["bool", "int", "float"], "median": ["bool", "int", "float"], "quantile": ["bool", "int", "float"],
-    "std": ["bool", "int", "float"], "var": ["bool", "int", "float"], "sum": ["bool", "int", "float"],
+    "mean": ["bool", "int", "float", "int8"], "median": ["bool", "int", "float", "int8"], "quantile": ["bool", "int", "float", "int8", "int8"],
+    "std": ["bool", "int", "float", "int8"], "var": ["bool", "int", "float", "int8"], "sum": ["bool", "int", "float", "int8"],
 }
 HELPERS = sorted(ACCEPT)
 FLOATS = gen.FLOAT_SMALL + [0.1 + 0.2, 1 / 3, 123456.789, 1e-7, 2.0**53, -(2.0**53 + 2)]
@@ -57,6 +57,8 @@ def generate(rng, tier):
         p = list(FLOATS)
         if helper in ("min", "max", "first", "last", "nth", "count", "count_unique", "mode", "sum", "mean", "median") and rng.random() < 0.3:
             p += [math.inf, -math.inf]
+    elif kind == "int8":
+        p = [-128, 127, -100, 100, 5, 0, 50, -1]         # a narrow integer type: differences and sums of two values do not fit the type itself
     elif kind == "int":
         p = list(INTS)
     else:
